@@ -1,4 +1,4 @@
 From Coq Require Extraction.
 From Coq Require Import ExtrOcamlBasic.
-From NV Require Import Base.Witness Base.Decimal Sam.Fields Sam.Record Sam.Header Sam.BamHeader.
-Extraction "model.ml" nv_types_witness write_record parse_line fmt_dec parse_dec write_header read_header write_bam_header read_bam_header.
+From NV Require Import Base.Witness Base.Decimal Sam.Fields Sam.Record Sam.Header Sam.BamHeader Sam.Lazy.
+Extraction "model.ml" nv_types_witness write_record parse_line fmt_dec parse_dec write_header read_header write_bam_header read_bam_header lazy_view.
